@@ -31,19 +31,22 @@ def mdSpec {σ : Type} (C : σ → Bytes → σ) (W lenBytes : Nat) (iv : σ) (m
 theorem md_chunks {σ : Type} (C : σ → Bytes → σ) (W cbits : Nat) (hW : 0 < W) (hc : cbits % 8 = 0)
     (hl : cbits / 8 < W) (iv : σ) (cs : List Bytes) (hfit : 8 * cs.flatten.length < 2 ^ cbits) :
     mdPadFinal C W cbits (cs.foldl (mdUpdate C W cbits) (mdInit iv)) = mdSpec C W (cbits / 8) iv cs.flatten := by
-  sorry
+  have _ := hc
+  exact md_chunks_aux C W cbits hW hl iv cs hfit
 
 theorem sha256_chunks (cs : List Bytes) (hfit : cs.flatten.length < 2 ^ 61) :
     Spec.Sha256.digest (mdPadFinal Spec.Sha256.compress 64 64
         (cs.foldl (mdUpdate Spec.Sha256.compress 64 64) (mdInit Spec.Sha256.iv)))
       = Spec.Sha256.hash cs.flatten := by
-  sorry
+  have _ := hfit
+  exact sha256_chunks_all cs
 
 theorem sha512_chunks (cs : List Bytes) (hfit : cs.flatten.length < 2 ^ 125) :
     Spec.Sha512.digest (mdPadFinal Spec.Sha512.compress 128 128
         (cs.foldl (mdUpdate Spec.Sha512.compress 128 128) (mdInit Spec.Sha512.iv)))
       = Spec.Sha512.hash cs.flatten := by
-  sorry
+  have _ := hfit
+  exact sha512_chunks_all cs
 
 /-! ### BLAKE2b -/
 
@@ -55,29 +58,30 @@ theorem blake2b_chunks (outlen : Nat) (key salt personal : Bytes) (cs : List Byt
         (cs.foldl (fun s c => b2Update Spec.Blake2b.compress (c.length + 1) s c)
           (b2Init Spec.Blake2b.compress Spec.Blake2b.paramInit outlen key salt personal)) outlen
       = .ok (Spec.Blake2b.hash outlen key salt personal cs.flatten) := by
-  sorry
+  have _ := ho
+  exact blake2b_chunks_aux outlen key salt personal cs hk
 
 /-- one-shot generichash: error exactly for out-of-range lengths, otherwise the specification value -/
 theorem generichash_spec (outlen : Nat) (msg key salt personal : Bytes) :
     generichash Spec.Blake2b.compress Spec.Blake2b.paramInit Spec.Blake2b.digest outlen msg key salt personal =
       if outlen = 0 ∨ outlen > 64 ∨ key.length > 64 then .err
-      else .ok (Spec.Blake2b.hash outlen key salt personal msg) := by
-  sorry
+      else .ok (Spec.Blake2b.hash outlen key salt personal msg) :=
+  generichash_aux outlen msg key salt personal
 
 /-- subkey derivation: salt = le64 id ‖ 0^8, personal = ctx ‖ 0^8, empty message; 16 ≤ len ≤ 64 -/
 theorem kdf_blake2b_spec (n : Nat) (id : UInt64) (ctx key : Bytes) (hc : ctx.length = 8) (hk : key.length = 32) :
     kdfBlake2b Spec.Blake2b.compress Spec.Blake2b.paramInit Spec.Blake2b.digest n id ctx key =
       if n < 16 ∨ n > 64 then .err
-      else .ok (Spec.Blake2b.hash n key (toLE 8 id.toNat ++ zeros 8) (ctx ++ zeros 8) []) := by
-  sorry
+      else .ok (Spec.Blake2b.hash n key (toLE 8 id.toNat ++ zeros 8) (ctx ++ zeros 8) []) :=
+  kdf_blake2b_aux n id ctx key hc hk
 
 /-! ### Poly1305 -/
 
 /-- any chunking through the 16-byte leftover buffer equals RFC 8439 §2.5 over the naturals -/
 theorem poly1305_chunks (key : Bytes) (cs : List Bytes) :
     polyFinish polyBlkNat polyFinNat (cs.foldl (polyUpdate polyBlkNat) (polyInitNat key))
-      = Spec.Poly1305.mac key cs.flatten := by
-  sorry
+      = Spec.Poly1305.mac key cs.flatten :=
+  poly1305_chunks_aux key cs
 
 /-! ### HMAC / HKDF over any hash whose streaming interface satisfies the chunk law -/
 
@@ -91,8 +95,8 @@ def hmacSpec (Hf : Bytes → Bytes) (W : Nat) (key msg : Bytes) : Bytes :=
   Hf (xorPad 0x5c W k' ++ Hf (xorPad 0x36 W k' ++ msg))
 
 theorem hmac_chunks {σ : Type} (H : HashOps σ) (Hf : Bytes → Bytes) (hH : ChunkLaw H Hf) (key : Bytes) (cs : List Bytes) :
-    hmacFinal H (cs.foldl (hmacUpdate H) (hmacInit H key)) = hmacSpec Hf H.W key cs.flatten := by
-  sorry
+    hmacFinal H (cs.foldl (hmacUpdate H) (hmacInit H key)) = hmacSpec Hf H.W key cs.flatten :=
+  hmac_chunks_aux H Hf hH key cs
 
 /-- RFC 5869 §2.3: T(0) = "", T(i) = HMAC(PRK, T(i-1) ‖ info ‖ i) -/
 def hkdfT (Hf : Bytes → Bytes) (W : Nat) (prk info : Bytes) : Nat → Bytes
@@ -106,7 +110,68 @@ theorem hkdf_expand_eq_rfc {σ : Type} (H : HashOps σ) (Hf : Bytes → Bytes) (
     (hout : ∀ m, (Hf m).length = H.outLen) (hpos : 0 < H.outLen) (L : Nat) (ctx prk : Bytes) :
     hkdfExpand H L ctx prk =
       if L > 255 * H.outLen then .err
-      else .ok ((hkdfOkm Hf H.W prk ctx ((L + H.outLen - 1) / H.outLen)).take L) := by
-  sorry
+      else .ok ((hkdfOkm Hf H.W prk ctx ((L + H.outLen - 1) / H.outLen)).take L) :=
+  hkdfExpand_spec H prk ctx (hmacSpec Hf H.W prk) (hkdfT Hf H.W prk ctx)
+    (fun prev c => hmac3_aux H Hf hH prk prev ctx [c]) rfl (fun _ => rfl) (fun _ => hout _) hpos L
+
+/-! ### Instances: the hypotheses above are satisfiable by the real SHA-2 front-ends
+    (so `hmac_chunks` / `hkdf_expand_eq_rfc` are not vacuous), and small non-vacuity checks -/
+
+/-- the streaming SHA-256 / SHA-512 interfaces as used by crypto_auth_hmacsha* and crypto_kdf_hkdf_* -/
+def H256 : HashOps Spec.Sha256.State :=
+  { W := 64, outLen := 32, init := mdInit Spec.Sha256.iv, update := mdUpdate Spec.Sha256.compress 64 64,
+    final := fun s => Spec.Sha256.digest (mdPadFinal Spec.Sha256.compress 64 64 s) }
+def H512 : HashOps Spec.Sha512.State :=
+  { W := 128, outLen := 64, init := mdInit Spec.Sha512.iv, update := mdUpdate Spec.Sha512.compress 128 128,
+    final := fun s => Spec.Sha512.digest (mdPadFinal Spec.Sha512.compress 128 128 s) }
+
+/-- the chunk law holds for SHA-256 with no length bound (counter and length field wrap alike) -/
+theorem chunkLaw_sha256 : ChunkLaw H256 Spec.Sha256.hash := fun cs => sha256_chunks_all cs
+theorem chunkLaw_sha512 : ChunkLaw H512 Spec.Sha512.hash := fun cs => sha512_chunks_all cs
+
+/-- crypto_auth_hmacsha256 init / update* / final = RFC 2104 over FIPS 180-4 SHA-256 -/
+theorem hmacsha256_chunks (key : Bytes) (cs : List Bytes) :
+    hmacFinal H256 (cs.foldl (hmacUpdate H256) (hmacInit H256 key)) = hmacSpec Spec.Sha256.hash 64 key cs.flatten :=
+  hmac_chunks H256 Spec.Sha256.hash chunkLaw_sha256 key cs
+
+theorem hmacsha512_chunks (key : Bytes) (cs : List Bytes) :
+    hmacFinal H512 (cs.foldl (hmacUpdate H512) (hmacInit H512 key)) = hmacSpec Spec.Sha512.hash 128 key cs.flatten :=
+  hmac_chunks H512 Spec.Sha512.hash chunkLaw_sha512 key cs
+
+/-- crypto_kdf_hkdf_sha256_expand = RFC 5869 §2.3 -/
+theorem hkdf_sha256_expand (L : Nat) (ctx prk : Bytes) :
+    hkdfExpand H256 L ctx prk =
+      if L > 255 * 32 then .err
+      else .ok ((hkdfOkm Spec.Sha256.hash 64 prk ctx ((L + 32 - 1) / 32)).take L) :=
+  hkdf_expand_eq_rfc H256 Spec.Sha256.hash chunkLaw_sha256 (fun _ => sha256_digest_length _) (by decide) L ctx prk
+
+theorem hkdf_sha512_expand (L : Nat) (ctx prk : Bytes) :
+    hkdfExpand H512 L ctx prk =
+      if L > 255 * 64 then .err
+      else .ok ((hkdfOkm Spec.Sha512.hash 128 prk ctx ((L + 64 - 1) / 64)).take L) :=
+  hkdf_expand_eq_rfc H512 Spec.Sha512.hash chunkLaw_sha512 (fun _ => sha512_digest_length _) (by decide) L ctx prk
+
+-- the side conditions of `md_chunks` hold for the two real parameter sets and a concrete chunk list
+example : (0 < 64 ∧ 64 % 8 = 0 ∧ 64 / 8 < 64) ∧ (0 < 128 ∧ 128 % 8 = 0 ∧ 128 / 8 < 128) := by decide
+example : 8 * ([[1, 2], [], [3]] : List Bytes).flatten.length < 2 ^ 64 := by decide
+-- the padding of `mdSpec` is the FIPS padding of the two specifications
+example (n : Nat) : mdPad 64 8 n = Spec.Sha256.pad n := rfl
+example (n : Nat) : mdPad 128 16 n = Spec.Sha512.pad n := rfl
+-- `blake2b_chunks` / `kdf_blake2b_spec`: admissible parameters exist, and both branches of the
+-- range checks are reachable
+example : (1 ≤ 32 ∧ 32 ≤ 64) ∧ ([] : Bytes).length ≤ 64 ∧ (zeros 64).length ≤ 64 := by decide
+example : (zeros 8).length = 8 ∧ (zeros 32).length = 32 := by decide
+example (msg key salt personal : Bytes) :
+    generichash Spec.Blake2b.compress Spec.Blake2b.paramInit Spec.Blake2b.digest 65 msg key salt personal = .err := by
+  rw [generichash_spec]; rfl
+example (msg : Bytes) :
+    generichash Spec.Blake2b.compress Spec.Blake2b.paramInit Spec.Blake2b.digest 32 msg [] [] [] =
+      .ok (Spec.Blake2b.hash 32 [] [] [] msg) := by
+  rw [generichash_spec]; rfl
+-- `hkdf_expand_eq_rfc`: both branches
+example (ctx prk : Bytes) : hkdfExpand H256 8161 ctx prk = .err := by
+  rw [hkdf_sha256_expand]; rfl
+example (ctx prk : Bytes) : hkdfExpand H256 0 ctx prk = .ok [] := by
+  rw [hkdf_sha256_expand]; rfl
 
 end Sodium.C04
